@@ -1,6 +1,6 @@
 (* Properties/C19.v — default categories and modifiers (C19) *)
 From Coq Require Import Sorted.
-From HpoV Require Import Gen.Consts Model.Base Model.Group Model.Onto Model.Query Proofs.C19P.
+From HpoV Require Import Gen.Consts Model.Base Model.Group Model.Onto Model.Query Model.Script Proofs.ClosureP Proofs.C19P Proofs.C19B.
 
 (* ROOT_ID, ROOT_ID_CAT and PHENOTYPE_ID are regenerated from /repo's source on every run
    (Gen/Consts.v); the statements below are re-checked against the current values. *)
@@ -36,6 +36,17 @@ Proof. exact defaults_error. Qed.
 Theorem C19_root_ids : ROOT_ID = 1 /\ ROOT_ID_CAT = 1 /\ PHENOTYPE_ID = 118.
 Proof. exact (conj eq_refl (conj eq_refl eq_refl)). Qed.
 
+(* "descends from" is the real is_a relation: in every Builder-built ontology (exact ancestor caches)
+   a term is a modifier iff it is a modifier root or has one among its ancestors in the transitive
+   closure of the is_a links; its categories are the category terms it equals or descends from *)
+Theorem C19_builder_is_modifier : forall icf s codes o t, run_script icf s = Ok (codes, Ok o) -> In t (ar_terms (o_arena o)) ->
+  (is_modifier o t = true <-> exists r, In r (o_mod o) /\ (r = t_id t \/ anc (o_arena o) (t_id t) r)).
+Proof. exact builder_is_modifier. Qed.
+
+Theorem C19_builder_categories : forall icf s codes o t, run_script icf s = Ok (codes, Ok o) -> In t (ar_terms (o_arena o)) ->
+  forall c, In c (categories o t) <-> In c (o_cat o) /\ (c = t_id t \/ anc (o_arena o) (t_id t) c).
+Proof. exact builder_categories. Qed.
+
 Print Assumptions C19_default_modifier.
 Print Assumptions C19_default_categories.
 Print Assumptions C19_is_modifier.
@@ -43,3 +54,5 @@ Print Assumptions C19_categories.
 Print Assumptions C19_categories_ascending.
 Print Assumptions C19_error_iff_root_missing.
 Print Assumptions C19_root_ids.
+Print Assumptions C19_builder_is_modifier.
+Print Assumptions C19_builder_categories.
